@@ -399,6 +399,13 @@ def probes(ctx, a, hist, where):
                           f'history {hist}: {al} active={al in a["aliases"]}, compiled {b}')
 
 
+MAX_STATES = 3000
+
+
+class StopExploration(Exception):
+    pass
+
+
 def explore(ctx, case):
     where, ops, max_depth, first = case
     where = 'product' if where.startswith('product') else where
@@ -411,6 +418,8 @@ def explore(ctx, case):
             ctx.violation({'where': where, 'clause': 'a plugin is registered twice', 'registry': 'plugins'}, f'history {hist}')
         probes(ctx, a, hist, where)
         restore(s)
+        if ctx.nviol > 200:
+            raise StopExploration()
 
     def on_edge(s, k, o, result, nxt, nk, hist):
         ctx.trans()
@@ -448,10 +457,19 @@ def explore(ctx, case):
     try:
         if first is not None:
             apply_op(first)
-        ex = Explorer(snapshot, restore, canon, ops, apply_op, on_state, on_edge, max_depth=max_depth)
-        ex.run()
+        ex = Explorer(snapshot, restore, canon, ops, apply_op, on_state, on_edge, max_depth=max_depth, max_states=MAX_STATES)
+        try:
+            ex.run()
+        except StopExploration:
+            ex.capped = True
+            ctx.count('exploration stopped after 200 violations')
     finally:
         restore(s0)
+    if max_depth is None and (ex.capped or not ex.fixpoint):
+        # a correct registry (a set over the finite alphabet) has a finite reachable state space: not reaching a fixpoint
+        # within the cap means the state space is not the set model's
+        ctx.violation({'where': where, 'clause': 'subsystem state space exceeds the set model (no fixpoint)'},
+                      f'{ex.states} states explored, cap {MAX_STATES}')
     ctx.count('fixpoint reached:' + where if ex.fixpoint else 'depth bound hit:' + where)
     ctx.count('max depth ' + where, ex.depth_reached)
     ctx.outcome('%s states=%d' % (where, ex.states))
